@@ -50,6 +50,7 @@ type EngineSpec struct {
 	PathFill    int       `json:"path_fill,omitempty"`    // distinct throw-away paths resolved before the run (fills the global path cache)
 	MtimeJitter bool      `json:"mtime_jitter,omitempty"` // every Stat reports a later modification time (a file that is being rewritten continuously)
 	BaseFill    *DataSpec `json:"base_fill,omitempty"`    // data filled into the base template at construction (Base.* entries render with it)
+	Overlay     bool      `json:"overlay,omitempty"`      // the engine reads through vuego.NewOverlayFS(fs, fs): the library's own fs wrapper in the path
 }
 
 // FileSpec is one simulated file with its immutable versions.
